@@ -1,4 +1,5 @@
-From SV Require Import Base.ListX Store.Masked World.Env World.Join World.JoinProps World.EnvSim.
+From SV Require Import Base.ListX Store.Masked World.Env World.Join World.JoinProps World.JoinAbs World.JoinRefine
+  World.JoinAbsProps World.EnvSim.
 From SV Require Import Props.C13.
 Check (C13_visits_the_storages_members : forall e eids sid mode selmod selrem d others i,
   m_has e eids (MRestrict sid mode selmod selrem d others) i = NS.mem i (env_mask e sid) /\
@@ -19,3 +20,14 @@ Check (C13_membership_unchanged : forall av hs excl eids sid mode selmod selrem 
 Check (C13_any_storage_kind : forall e1 e2 av eids hs k ms, env_rel e1 e2 ->
   snd (env_join e1 av eids hs k ms) = snd (env_join e2 av eids hs k ms) /\
   env_rel (fst (env_join e1 av eids hs k ms)) (fst (env_join e2 av eids hs k ms))).
+Check (C13_writes_only_the_chosen_items : forall unit av hs excl eids pre post s selmod selrem d others keys S j, NoDup keys ->
+  forallb (fun m => negb (m_owns m s)) pre = true -> forallb (fun m => negb (m_owns m s)) post = true ->
+  cell (fst (a_visit_keys unit av hs excl eids (pre ++ MRestrict s 1 selmod selrem d others :: post) keys S)) s j =
+    if in_dec N.eq_dec j keys then (if N.eqb (N.modulo j selmod) selrem then bump (unit s) d (cell S s j) else cell S s j)
+    else cell S s j).
+Check (C13_read_only_views_change_nothing : forall unit av hs excl eids ms keys S s j, NoDup keys ->
+  forallb (fun m => negb (m_owns m s)) ms = true ->
+  cell (fst (a_visit_keys unit av hs excl eids ms keys S)) s j = cell S s j).
+Check (C13_join_refines_the_join_on_maps : forall unit av hs excl eids ms keys e S, absrel unit e S ->
+  snd (visit_keys av hs excl eids ms keys e) = snd (a_visit_keys unit av hs excl eids ms keys S) /\
+  absrel unit (fst (visit_keys av hs excl eids ms keys e)) (fst (a_visit_keys unit av hs excl eids ms keys S))).
